@@ -53,6 +53,8 @@ type Unit struct {
 	typeIDs map[string]int
 	fset    *token.FileSet
 	subFns  map[string]bool
+	epochAlloc map[int]Term // allocation counter at the time a heap epoch began
+	havocAlloc Term         // allocation counter valid for the havoc constants being created
 	interest []Term // named inputs for models: name -> term
 	interestNames []string
 }
@@ -60,7 +62,7 @@ type Unit struct {
 func NewUnit(name string, mode Mode, fset *token.FileSet) *Unit {
 	u := &Unit{Name: name, Mode: mode, declared: map[string]Sort{}, kindSeq: map[string]int{},
 		Assumptions: map[string]bool{}, strLits: map[string]Term{}, typeIDs: map[string]int{}, fset: fset,
-		subFns: map[string]bool{}}
+		subFns: map[string]bool{}, epochAlloc: map[int]Term{}}
 	return u
 }
 
@@ -90,17 +92,36 @@ func (u *Unit) Declare(name string, so Sort) Term {
 // typingAxiom states the typing invariant of integer-valued heap components (mode int):
 // every version of such a component only holds values within the range of its Go type.
 func (u *Unit) typingAxiom(name string, so Sort) {
-	if u.Mode != ModeInt {
-		return
-	}
 	base := name
 	for _, sep := range []string{"@", ".havoc!", ".hv!"} {
 		if i := strings.Index(base, sep); i >= 0 {
 			base = base[:i]
 		}
 	}
+	if compRefs[base] {
+		var bound Term
+		if i := strings.Index(name, "@"); i >= 0 {
+			var ep int
+			fmt.Sscanf(name[i+1:], "%d", &ep)
+			bound = u.epochAlloc[ep]
+		} else {
+			bound = u.havocAlloc
+		}
+		if bound.Valid() {
+			switch {
+			case so == SInt:
+				u.emit(fmt.Sprintf("(assert (<= (root %s) %s))", name, bound.S))
+			case so == ArrSort(SInt, SInt):
+				u.emit(fmt.Sprintf("(assert (forall ((tr Int)) (! (<= (root (select %s tr)) %s) :pattern ((select %s tr)))))", name, bound.S, name))
+			case so.IsArray() && so.ElemSort().IsArray() && so.ElemSort().ElemSort() == SInt:
+				ks := so.ElemSort().IdxSort()
+				u.emit(fmt.Sprintf("(assert (forall ((tr Int) (tj %s)) (! (<= (root (select (select %s tr) tj)) %s) :pattern ((select (select %s tr) tj)))))", ks, name, bound.S, name))
+			}
+		}
+		return
+	}
 	ii, ok := compRanges[base]
-	if !ok {
+	if !ok || u.Mode != ModeInt {
 		return
 	}
 	lo, hi := BigLit(ii.min()).S, BigLit(ii.max()).S
@@ -567,7 +588,10 @@ func (u *Unit) Preamble() string {
 	b.WriteString("(declare-fun root (Int) Int)\n")
 	b.WriteString("(declare-fun kind (Int) Int)\n")
 	b.WriteString("(declare-fun box.Str (Str) Int)\n(declare-fun unbox.Str (Int) Str)\n")
-	b.WriteString("(assert (forall ((s Str)) (! (= (unbox.Str (box.Str s)) s) :pattern ((box.Str s)))))\n")
+	b.WriteString("(assert (forall ((s Str)) (! (and (= (unbox.Str (box.Str s)) s) (= (root (box.Str s)) 0)) :pattern ((box.Str s)))))\n")
+	b.WriteString("(declare-fun box.Int (Int) Int)\n(declare-fun unbox.Int (Int) Int)\n")
+	b.WriteString("(assert (forall ((x Int)) (! (and (= (unbox.Int (box.Int x)) x) (= (root (box.Int x)) 0)) :pattern ((box.Int x)))))\n")
+	b.WriteString("(assert (= (root 0) 0))\n")
 	return b.String()
 }
 
